@@ -129,10 +129,10 @@ def monitor(h, io):
             if fails:
                 break
         # persistence: calls that are not the setter of a field leave it alone (bank loads reset the per-bank overrides only)
-        if prev is not None and w[0] in ("reset", "emu", "numchips", "runatpcm", "opendata", "bankdata", "hook", "devid", "trackopt", "chanen"):
+        if prev is not None and w[0] in ("reset", "emu", "numchips", "runatpcm", "opendata", "bankdata", "hook", "devid", "trackopt", "chanen", "chiptype"):
             keep = {"reset": FIELDS, "emu": [f for f in FIELDS if f != "emu"], "numchips": [f for f in FIELDS if f not in ("nc", "nco", "nch")],
                     "runatpcm": [f for f in FIELDS if f != "rap"], "opendata": FIELDS, "hook": [f for f in FIELDS if f != "hk"],
-                    "devid": [f for f in FIELDS if f != "dev"], "trackopt": FIELDS, "chanen": FIELDS,
+                    "devid": [f for f in FIELDS if f != "dev"], "trackopt": FIELDS, "chanen": FIELDS, "chiptype": [f for f in FIELDS if f != "ct"],
                     "bankdata": [f for f in FIELDS if f not in ("lfo", "lff", "ct", "vm")]}[w[0]]
             diff = [f for f in keep if cur.get(f) != prev.get(f)]
             if diff and not (prev.get("lv") != "0" and diff == ["vm"]):
